@@ -1003,6 +1003,13 @@ def s2_world(sc: Dict[str, Any]) -> Tuple[Dict[str, Any], Dict[str, Any], Callab
         plist = {"unique": [CC, tk(K, 1), ts], "missing": [CC, tk("Z", 1), ts], "ambiguous": [CC, tk(K, 1), tk(K, 2), ts],
                  "wrong-type": [CC, {"t": "VALUE", "sn": K, "m": "value", "dop": lref(owner, "t_kd")}, ts],
                  "only-in-other-list": [CC, ts], "key-after-struct": [CC, ts, tk(K, 1)],
+                 # MIXED-KIND duplicates: the name is carried by a TABLE-KEY and by a parameter of another kind
+                 "mixed-key-then-value": [CC, tk(K, 1), {"t": "VALUE", "sn": K, "m": "value", "dop": lref(owner, "t_kd")}, ts],
+                 "mixed-value-then-key": [CC, {"t": "VALUE", "sn": K, "m": "value", "dop": lref(owner, "t_kd")}, tk(K, 1), ts],
+                 "mixed-key-and-coded-const": [CC, {"t": "CODED-CONST", "sn": K, "m": "const", "value": 1}, tk(K, 1), ts],
+                 "mixed-key-and-length-key": [CC, tk(K, 1), {"t": "LENGTH-KEY", "sn": K, "id": f"{owner}.lk", "m": "lengthkey",
+                                                              "dop": lref(owner, "t_kd")}, ts],
+                 "mixed-key-after-struct": [CC, {"t": "VALUE", "sn": K, "m": "value", "dop": lref(owner, "t_kd")}, ts, tk(K, 1)],
                  "same-name-in-other-list": [CC, tk(K, 1), ts]}[sit]
         where = sc["where"]
         if where == "request":
@@ -1160,7 +1167,9 @@ def s_scenarios(quick: bool) -> List[Dict[str, Any]]:
                     out.append({"fam": "S", "kind": kind, "owner": owner, "defs": defs, "ni": ni, "import": False})
     for owner in ("LR", "LP"):
         for where in ("request", "response", "structure"):
-            for sit in ("unique", "missing", "ambiguous", "wrong-type", "only-in-other-list", "key-after-struct", "same-name-in-other-list"):
+            for sit in ("unique", "missing", "ambiguous", "wrong-type", "only-in-other-list", "key-after-struct", "same-name-in-other-list",
+                        "mixed-key-then-value", "mixed-value-then-key", "mixed-key-and-coded-const", "mixed-key-and-length-key",
+                        "mixed-key-after-struct"):
                 out.append({"fam": "S2", "kind": "table-struct/TABLE-KEY-SNREF", "owner": owner, "where": where, "situation": sit})
         for sit in ("unique", "missing", "ambiguous"):
             for table_by in ("idref", "snref"):
